@@ -75,7 +75,17 @@ func c13Mailbox(rc *simrt.RunCtx) {
 		in   instance
 	}{{"client", a}, {"server", b}} {
 		if x.in.failed == nil && x.in.closedAt == 0 && !rc.Failed() {
-			rc.Violate("c13.mb-dead-peer-undetected", fmt.Sprintf("%s/connection-%d", x.name, min(ci.k, 2)), "%v after the relay stopped delivering anything the %s application's Read/Write on connection #%d (%s) have still not failed: the mailbox connection's keepalive did not detect the dead peer", rc.Now()-tSilence, x.name, ci.k, ci.pattern)
+			cause := fmt.Sprintf("%s/connection-%d", x.name, min(ci.k, 2))
+			if x.name == "client" && ci.pattern == XX && maxV >= 2 && c05StuckOnOldRendezvous(st, ci) {
+				// recorded finding (C11 / C05 / C12): the server's keepalive
+				// ended the pairing connection first, the server left the
+				// passphrase-derived rendezvous and deleted its mailboxes;
+				// the client, caught in a send at that moment, retries
+				// "stream not found" forever inside the GBN callbacks, which
+				// starves its own keepalive
+				cause += "/at-rendezvous-switch"
+			}
+			rc.Violate("c13.mb-dead-peer-undetected", cause, "%v after the relay stopped delivering anything the %s application's Read/Write on connection #%d (%s) have still not failed: the mailbox connection's keepalive did not detect the dead peer", rc.Now()-tSilence, x.name, ci.k, ci.pattern)
 		}
 	}
 	if !rc.Failed() {
